@@ -124,6 +124,10 @@ def rule_D(ck, lib, sk):
                 ck.judge(ok, "C12-D", "%s:take_while#%d" % (name, n), "class contains 10 but a mandatory %s follows on the remainder" % (pid_name(nxt[0]) if nxt else "?"),
                          "take_while with a class containing byte 10 (%s) is not followed by a mandatory tag: it can succeed because the input ended" % bytecls.show_set(cls), t[3])
     ck.floor("C12-D", "take_while application sites", n, 8)
+    peeks = [pk for pk in sk.direct_inspections(exempt=("take_while", "satisfy")) if not pk[1].endswith("::is_empty")]
+    ck.judge(not peeks, "C12-D", "parser:no-direct-inspection", "outside the primitives the input is examined only through parser applications",
+             "a parser looks at input bytes directly (its verdict may then depend on bytes behind the unit or on where the input ends): %s"
+             % [(p.split("::")[-1], c.split("::")[-1], site, t) for p, c, site, t in peeks][:4], peeks[0][2] if peeks else None)
 
 
 def rule_G(ck, lib, sk, rid):
